@@ -969,7 +969,7 @@ func main() {
 	e.Rule = "random topologies (1-2 ISDs, 1-4 cores with parallel core links, up to 3 levels of multi-parent " +
 		"children, parallel parent links, peering links between any non-core pair) -> beacon segments built as " +
 		"seg.PathSegment along every loop-free walk (random timestamps, expiries, MACs, per-link MTUs, peer entries " +
-		"randomly withheld) -> per case a random (src,dst), random subsets of the segments ending at src / dst / core " +
+		"randomly withheld; every sixteenth topology is beaconed by the real beaconing.DefaultExtender instead) -> per case a random (src,dst), random subsets of the segments ending at src / dst / core " +
 		"segments, perturbed by duplicates (same pointer, deep copy), re-beaconed variants with other expiry/MTU, and " +
 		"segments not touching src/dst; each case is run with findAllIdentical true and false. Non-trivial = at least " +
 		"one path returned; distinct by op line"
@@ -990,6 +990,7 @@ func main() {
 	casesPer := 6
 	base := int64(1700000000)
 	shapes := map[string]int{}
+	real := 0
 	for ti := 0; ti < nTopo; ti++ {
 		r := vlib.CaseRand(e.Seed, ti)
 		t := genTopo(r)
@@ -998,16 +999,27 @@ func main() {
 		// beacon pool
 		segsTo := map[int][]*seg.PathSegment{}
 		var coreSegs []*seg.PathSegment
+		var rn *realNet
+		if ti%16 == 3 { // every sixteenth topology is beaconed by the real extender
+			rn = newRealNet(r, t)
+			real++
+		}
+		mk := func(w walk) *seg.PathSegment {
+			if rn != nil {
+				return rn.mkSeg(r, w, base)
+			}
+			return t.mkSeg(r, w, base, peerDrop, noise)
+		}
 		for c, a := range t.ases {
 			if !a.core {
 				continue
 			}
 			for _, w := range t.walks(c, kPC, 60) {
 				end := w[len(w)-1].as
-				segsTo[end] = append(segsTo[end], t.mkSeg(r, w, base, peerDrop, noise))
+				segsTo[end] = append(segsTo[end], mk(w))
 			}
 			for _, w := range t.walks(c, kCore, 30) {
-				coreSegs = append(coreSegs, t.mkSeg(r, w, base, peerDrop, noise))
+				coreSegs = append(coreSegs, mk(w))
 			}
 		}
 		walksOf := map[*seg.PathSegment]walk{}
@@ -1099,6 +1111,8 @@ func main() {
 		}
 	}
 	e.Extra["shapes"] = shapes
+	e.Extra["topologies"] = nTopo
+	e.Extra["topologies_beaconed_by_real_extender"] = real
 	e.Finish()
 }
 
